@@ -157,7 +157,7 @@ class C13(Prop):
             'enumerated values); non-trivial = every renamed case')
 
     def n_ren(self, tier):
-        return 3 if tier == 'quick' else 24
+        return 3 if tier == 'quick' else 48
 
     def plans(self, tier, rng):
         shapes = [(False, [('named', 4)]), (False, [('tuple', 3)]), (True, [('named', 3), ('tuple', 1), ('unit', 0)])]
